@@ -126,8 +126,8 @@ Section CauseStep.
     - (* start-up failure *)
       split.
       + intros sq Hr. eapply (cause_mono st); [apply T1; auto|simpl; auto|reflexivity|auto].
-      + intros tq Hc. hq HQ (is_doner tq). simpl. destruct (Nat.eqb_spec t tq); [subst; left; reflexivity|].
-        right. apply T2. simpl in Hq. lia.
+      + intros tq Hc. simpl. destruct (Nat.eq_dec t tq) as [Heq|Hne]; [left; subst; reflexivity|].
+        right. apply T2. hq HQ (is_doner tq); (destruct (Nat.eqb_spec t tq); [congruence|]); simpl in Hq; lia.
     - (* doneTriggerFromUpdater: only the updater's own trigger *)
       simpl in Ec. destruct (is_reg st t) eqn:Er; inversion Ec; subst t0.
       assert (Hreg0 : In (t_key (trigs st t), t) (reg st)) by (apply is_reg_true; auto).
@@ -147,8 +147,8 @@ Section CauseStep.
     - (* Done() *)
       split.
       + intros sq Hr. eapply (cause_mono st); [apply T1; auto|simpl; auto|reflexivity|auto].
-      + intros tq Hc. hq HQ (is_doner tq). simpl. destruct (Nat.eqb_spec t tq); [subst; left; reflexivity|].
-        right. apply T2. simpl in Hq. lia.
+      + intros tq Hc. simpl. destruct (Nat.eq_dec t tq) as [Heq|Hne]; [left; subst; reflexivity|].
+        right. apply T2. hq HQ (is_doner tq); (destruct (Nat.eqb_spec t tq); [congruence|]); simpl in Hq; lia.
     - (* fan-out *)
       split.
       + intros sq Hr. eapply (cause_mono st); [apply T1; auto|simpl; intros; apply in_or_app; auto|reflexivity|auto].
